@@ -1,5 +1,6 @@
 import CarModel.Proofs.Finalize
 import CarModel.Proofs.FactsTie
+import CarModel.Proofs.RunRefine
 /-
 C04 — Writable stores behave as an append-only content-addressed map.
 `Rel o roots s st` relates the model of the code (`Store`: file bytes + insertion index + writer
@@ -170,5 +171,190 @@ example : let o : WOpts := {}
     let s := (Store.create .blockstore o none).1
     s.finalized = false ∧ s.closed = false ∧ (s.putOne o ⟨1, 0x55, 0, [1, 2]⟩ [1, 2]).2.1 = .ok := by
   simp [Store.create, Store.putOne, shouldPut, Cid.isIdentity]
+
+/-- One call of the open phase: allowed answer, related and still open afterwards, and the reference log
+    grows only by blocks of the call. -/
+theorem data_step (o : WOpts) (roots : Option (List Cid)) (s : Store) (st : Spec.State)
+    (rel : Rel o roots s st) (hopen : s.finalized = false ∧ s.closed = false)
+    (hlog : ∀ b ∈ st.log, b.getOk o) (op : Op) (hop : op.isData s.api = true) :
+    Allowed o st op (s.step o op).2.1 ∧
+    Rel o roots (s.step o op).1 (Spec.step o st op).1 ∧
+    ((s.step o op).1.finalized = false ∧ (s.step o op).1.closed = false) ∧
+    (s.step o op).1.api = s.api ∧
+    (∀ b ∈ (Spec.step o st op).1.log, b ∈ st.log ∨ b ∈ op.blocks) := by
+  have hc : st.closed = false := by rw [← rel.closed]; exact hopen.2
+  have hf : st.finalized = false := by rw [← rel.finalized]; exact hopen.1
+  have hg : Spec.writeGuard st = none := by simp [Spec.writeGuard, hc, hf]
+  cases op with
+  | put c d =>
+    have hstep : s.step o (.put c d) = s.putOne o c d := by
+      unfold Store.step
+      cases hapi : s.api <;> simp [Store.stepBlockstore, Store.stepStorage, hopen.1, hopen.2]
+    have hsp : Spec.step o st (.put c d) = Spec.putOne o st c d := by simp [Spec.step, hg]
+    have h := putOne_refines o roots s st rel hopen c d
+    have hfl := putOne_flags o s c d
+    rw [hstep, hsp]
+    refine ⟨?_, h.2, ⟨hfl.1.trans hopen.1, hfl.2.trans hopen.2⟩, ?_, ?_⟩
+    · show (s.putOne o c d).2.1 = (Spec.step o st (.put c d)).2
+      rw [hsp]; exact h.1
+    · rw [h.2.api, spec_putOne_api, rel.api]
+    · intro b hb
+      rcases spec_putOne_log o st c d b hb with h | h
+      · exact .inl h
+      · exact .inr (by simp [Op.blocks, h])
+  | putMany bs =>
+    have hapi : s.api = .blockstore := by
+      cases ha : s.api
+      · rfl
+      · rw [ha] at hop; simp [Op.isData] at hop
+    have hstep : s.step o (.putMany bs) = s.putMany o bs := by
+      simp [Store.step, hapi, Store.stepBlockstore, hopen.1, hopen.2]
+    have hsp : Spec.step o st (.putMany bs) = Spec.putMany o st bs := by simp [Spec.step, hg]
+    have h := putMany_refines o roots bs s st rel hopen
+    have hfl := putMany_flags o bs s
+    have hapi' : (s.putMany o bs).1.api = s.api := by
+      have : ∀ (bs : List Block) (st : Spec.State), (Spec.putMany o st bs).1.api = st.api := by
+        intro bs
+        induction bs with
+        | nil => intro st; rfl
+        | cons x tl ih =>
+          intro st
+          unfold Spec.putMany
+          have h1 := spec_putOne_api o st x.cid x.data
+          generalize Spec.putOne o st x.cid x.data = rs at h1
+          obtain ⟨ss, outs⟩ := rs
+          cases outs <;> simp only <;> try exact h1
+          exact (ih ss).trans h1
+      rw [h.2.api, this, rel.api]
+    rw [hstep, hsp]
+    refine ⟨?_, h.2, ⟨hfl.1.trans hopen.1, hfl.2.trans hopen.2⟩, hapi', ?_⟩
+    · show (s.putMany o bs).2.1 = (Spec.step o st (.putMany bs)).2
+      rw [hsp]; exact h.1
+    · exact spec_putMany_log o bs st
+  | has c =>
+    have h := has_refines o roots s st rel c
+    have hs1 : (s.step o (.has c)).1 = s := by
+      unfold Store.step
+      cases hapi : s.api <;> simp [Store.stepBlockstore, Store.stepStorage, hopen.2]
+    have hs2 : (Spec.step o st (.has c)).1 = st := by simp [Spec.step, hc]
+    rw [hs1, hs2]
+    exact ⟨h, rel, hopen, rfl, fun b hb => .inl hb⟩
+  | get c =>
+    have hs1 : (s.step o (.get c)).1 = s := by
+      unfold Store.step
+      cases hapi : s.api <;> simp only [Store.stepBlockstore, Store.stepStorage] <;>
+        (split; rfl; split; rfl; split <;> rfl)
+    have hs2 : (Spec.step o st (.get c)).1 = st := by
+      simp only [Spec.step]
+      split; rfl; split; rfl; split <;> rfl
+    rw [hs1, hs2]
+    refine ⟨?_, rel, hopen, rfl, fun b hb => .inl hb⟩
+    unfold Allowed
+    by_cases hid : Spec.idRule o c = true
+    · simp only [hid, ↓reduceIte]; exact identity_get o s c hid
+    · have hid' : Spec.idRule o c = false := by simpa using hid
+      simp only [hid', Bool.false_eq_true, ↓reduceIte]
+      cases hapi : s.api
+      · exact blockstore_get o roots s st rel hapi hopen.2 hlog c hid'
+      · exact storage_get o roots s st rel hapi hopen.2 hlog c hid'
+  | allKeys =>
+    have hapi : s.api = .blockstore := by
+      cases ha : s.api
+      · rfl
+      · rw [ha] at hop; simp [Op.isData] at hop
+    have hs1 : (s.step o .allKeys).1 = s := by simp [Store.step, hapi, Store.stepBlockstore, hopen.2]
+    have hs2 : (Spec.step o st .allKeys).1 = st := by simp [Spec.step, hc]
+    rw [hs1, hs2]
+    exact ⟨allKeys_refines o roots s st rel hopen.2 hapi, rel, hopen, rfl, fun b hb => .inl hb⟩
+  | roots =>
+    have hs1 : (s.step o .roots).1 = s := by
+      unfold Store.step
+      cases hapi : s.api <;> simp [Store.stepBlockstore, Store.stepStorage, hopen.2]
+    have hs2 : (Spec.step o st .roots).1 = st := by simp [Spec.step, hc]
+    rw [hs1, hs2]
+    refine ⟨?_, rel, hopen, rfl, fun b hb => .inl hb⟩
+    show (s.step o .roots).2.1 = (Spec.step o st .roots).2
+    have hr : s.roots.getD [] = st.roots := by rw [rel.inv.roots, rel.sroots]
+    unfold Store.step
+    cases hapi : s.api <;> simp [Store.stepBlockstore, Store.stepStorage, Spec.step, hopen.2, hc, hr]
+  | getSize c => simp [Op.isData] at hop
+  | finalize => simp [Op.isData] at hop
+  | finalizeRO => simp [Op.isData] at hop
+  | close => simp [Op.isData] at hop
+  | discard => simp [Op.isData] at hop
+
+/-- **Any history of the open phase**, by induction over the list of calls. -/
+theorem open_run_refines (o : WOpts) (roots : Option (List Cid)) (ops : List Op) :
+    ∀ (s : Store) (st : Spec.State), Rel o roots s st → s.finalized = false ∧ s.closed = false →
+    (∀ b ∈ st.log, b.getOk o) → (∀ op ∈ ops, op.isData s.api = true ∧ ∀ b ∈ op.blocks, b.getOk o) →
+    RunOk o st ops (Store.run o s ops).2 ∧
+    Rel o roots (Store.run o s ops).1 (Spec.run o st ops).1 ∧
+    ((Store.run o s ops).1.finalized = false ∧ (Store.run o s ops).1.closed = false) ∧
+    (Store.run o s ops).1.api = s.api := by
+  induction ops with
+  | nil => intro s st rel hopen _ _; exact ⟨trivial, rel, hopen, rfl⟩
+  | cons op tl ih =>
+    intro s st rel hopen hlog hops
+    obtain ⟨hop, hbl⟩ := hops op List.mem_cons_self
+    obtain ⟨hal, hrel, hopen', hapi, hgrow⟩ := data_step o roots s st rel hopen hlog op hop
+    have hlog' : ∀ b ∈ (Spec.step o st op).1.log, b.getOk o := by
+      intro b hb
+      rcases hgrow b hb with h | h
+      · exact hlog b h
+      · exact hbl b h
+    have htl : ∀ op' ∈ tl, op'.isData (s.step o op).1.api = true ∧ ∀ b ∈ op'.blocks, b.getOk o := by
+      intro op' h; rw [hapi]; exact hops op' (List.mem_cons_of_mem _ h)
+    obtain ⟨h1, h2, h3, h4⟩ := ih _ _ hrel hopen' hlog' htl
+    simp only [Store.run, Spec.run]
+    exact ⟨⟨hal, h1⟩, h2, h3, h4.trans hapi⟩
+
+
+/-- **A whole history, then Finalize** (read-write blockstore, CARv2 mode): after any history of open-phase
+    calls on a fresh store, every answer was one the reference map allows, and Finalize returns ok and leaves
+    exactly the layout of the reference's log (C05), whatever the interleaving of reads and writes was. -/
+theorem history_then_finalize (o : WOpts) (roots : Option (List Cid)) (ops : List Op) (ix : Index)
+    (hv2 : o.v1 = false)
+    (hops : ∀ op ∈ ops, op.isData .blockstore = true ∧ ∀ b ∈ op.blocks, b.getOk o)
+    (hix : (Store.run o (Store.create .blockstore o roots).1 ops).1.idx.flatten o.codec = some ix)
+    (h64 : 51 + o.dataPad + o.indexPad + (Store.run o (Store.create .blockstore o roots).1 ops).1.pos < 2 ^ 64) :
+    let st0 : Spec.State := { api := .blockstore, roots := roots.getD [] }
+    let s := (Store.run o (Store.create .blockstore o roots).1 ops).1
+    RunOk o st0 ops (Store.run o (Store.create .blockstore o roots).1 ops).2 ∧
+    (s.step o .finalize).2.1 = .ok ∧
+    (s.step o .finalize).1.file
+      = layoutV2 o.dataPad o.indexPad (payload roots (Spec.run o st0 ops).1.log) true o.storeIdentity ix.bytes := by
+  intro st0 s
+  have rel0 : Rel o roots (Store.create .blockstore o roots).1 st0 := create_rel .blockstore o roots
+  have hopen0 : (Store.create .blockstore o roots).1.finalized = false ∧
+      (Store.create .blockstore o roots).1.closed = false := by simp [Store.create]
+  have hapi0 : (Store.create .blockstore o roots).1.api = .blockstore := by simp [Store.create]
+  obtain ⟨hrun, rel, hopen, hapi1⟩ := open_run_refines o roots ops _ st0 rel0 hopen0 (by intro b hb; cases hb)
+    (by rw [hapi0]; exact hops)
+  have hapi : s.api = .blockstore := hapi1.trans hapi0
+  have rel' : Rel o roots s (Spec.run o st0 ops).1 := rel
+  have hopen' : s.finalized = false ∧ s.closed = false := hopen
+  have hix' : s.idx.flatten o.codec = some ix := hix
+  have h64' : 51 + o.dataPad + o.indexPad + s.pos < 2 ^ 64 := h64
+  refine ⟨hrun, ?_⟩
+  clear_value s
+  obtain ⟨evs, he, hf⟩ := finalize_file o roots s (Spec.run o st0 ops).1.log ix rel'.inv hopen' hv2 hix' h64'
+  constructor
+  · simp [Store.step, hapi, Store.stepBlockstore, Store.finalizeRO, Store.closeInner, hv2, hopen'.1, hopen'.2, he,
+      Store.applyEvs]
+  · simp [Store.step, hapi, Store.stepBlockstore, Store.finalizeRO, Store.closeInner, hv2, hopen'.1, hopen'.2, he,
+      Store.applyEvs, hf]
+
+/-- Non-vacuity of the history theorems: a concrete mixed history meets the premises, and its answers are
+    evaluated (a put, a repeated put, a Has, a Get of the stored block, a Get of an absent one). -/
+example : let o : WOpts := {}
+    let c1 : Cid := ⟨1, 0x55, 0x12, List.replicate 32 1⟩
+    let c2 : Cid := ⟨1, 0x55, 0x12, List.replicate 32 2⟩
+    let ops : List Op := [.put c1 [1, 2], .put c1 [1, 2], .has c1, .get c1, .get c2, .roots]
+    (∀ op ∈ ops, op.isData .blockstore = true) ∧
+    (Spec.run o { api := .blockstore, roots := [] } ops).2
+      = [.ok, .ok, .bool true, .data [1, 2], .err .notFound, .cids []] ∧
+    (Spec.run o { api := .blockstore, roots := [] } ops).1.log = [⟨c1, [1, 2]⟩] := by
+  simp [Op.isData, Spec.run, Spec.step, Spec.writeGuard, Spec.putOne, Spec.idRule, Spec.stored, Spec.sameKey,
+    Cid.isIdentity, Cid.byteLen, Cid.bytes, Cid.mhBytes, uvarint_small]
 
 end Car.C04
